@@ -414,6 +414,9 @@ def percentiles_summary(df, num_old, num_new, upsample, state):
         Scale factor to increase the number of percentiles calculated in
         each partition.  Use to improve accuracy.
     """
+    # Nulls take no part in the divisions (rows with a null key are placed by
+    # na_position); a partition holding only nulls would contribute NaN "values"
+    df = df.dropna()
     length = len(df)
     if length == 0:
         return ()
